@@ -356,7 +356,10 @@ pub fn gen_universe(rng: &mut Rng, force_huge: Option<usize>) -> Vec<String> {
         // sharing a prefix, half of them one-bit siblings of the others
         const LENS: [usize; 14] = [0, 1, 1, 2, 3, 7, 8, 15, 16, 17, 18, 24, 33, 40];
         let n = if small { rng.urange(2, 4) } else { rng.urange(8, 32) };
-        let shared: String = (0..rng.usize_below(20)).map(|_| *rng.pick(&['a', 'm', 'z'])).collect();
+        // (half of these universes mix characters of every UTF-8 length into the keys: a byte offset such
+        // as `len - 16` then falls inside a character)
+        let letters: &[char] = if rng.chance(1, 2) { &['a', 'm', 'z'] } else { &['a', 'é', '€', '😀', 'z'] };
+        let shared: String = (0..rng.usize_below(20)).map(|_| *rng.pick(letters)).collect();
         let mut keys: Vec<String> = vec![];
         while keys.len() < n {
             if keys.len() % 2 == 1 && rng.chance(2, 3) {
@@ -370,7 +373,7 @@ pub fn gen_universe(rng: &mut Rng, force_huge: Option<usize>) -> Vec<String> {
             }
             let mut k = if rng.chance(1, 3) { shared.clone() } else { String::new() };
             let want = *rng.pick(&LENS);
-            while k.len() < want { k.push(*rng.pick(&['a', 'm', 'z'])); }
+            while k.len() < want { k.push(*rng.pick(letters)); }
             keys.push(k);
         }
         return keys;
